@@ -140,3 +140,19 @@ type HLast struct {
 	X    float64
 	Name string
 }
+
+// Level and TagList are named types that are not structs; a struct that embeds one has a field named after the
+// type (nothing to promote), as for encoding/json.
+type Level int
+type TagList []string
+
+type EmbScalar struct {
+	Level
+	TagList
+	Name string
+}
+
+type EmbScalarPtr struct {
+	*Level
+	N int
+}
